@@ -45,15 +45,20 @@ struct Obj : public tlx::ReferenceCounter {
     }
 };
 struct Derived : public Obj { int extra = 5; };
+// a derived class whose counted base is NOT its first base: converting a handle adjusts the pointer
+struct Pad { long pad[3] = {1, 2, 3}; virtual ~Pad() {} };
+struct Derived2 : public Pad, public Obj { int extra2 = 6; };
 
 using Ptr = tlx::CountingPtr<Obj>;
 using DPtr = tlx::CountingPtr<Derived>;
+using D2Ptr = tlx::CountingPtr<Derived2>;
 using NPtr = tlx::CountingPtrNoDelete<Obj>;
 
 enum {
     H_NEW = 0, H_NEWD, H_COPYCTOR, H_MOVECTOR, H_COPYASSIGN, H_MOVEASSIGN, H_CONVCOPYCTOR, H_CONVMOVECTOR,
     H_CONVCOPYASSIGN, H_CONVMOVEASSIGN, H_RESET, H_SWAP, H_UNIFY, H_DROP, H_ASSIGN_NULL, H_DRESET, H_DCOPY,
-    H_LINK, H_ADVANCE, H_ADVANCE_MOVE, H_UNLINK, H_PUSH_FRONT, H_MAKE_SELFREG, H_N
+    H_LINK, H_ADVANCE, H_ADVANCE_MOVE, H_UNLINK, H_PUSH_FRONT, H_MAKE_SELFREG,
+    H_NEWD2, H_D2_COPYASSIGN, H_D2_MOVEASSIGN, H_D2_COPYCTOR, H_D2_DROP, H_N
 };
 enum { T_COPY_BASE = 0, T_COPY_OWN, T_MOVE_OWN, T_RESET, T_DROP, T_COPYCTOR, T_READ, T_UNIFY, T_SWAP, T_N };
 
@@ -93,6 +98,7 @@ struct History : public DyingHook {
         };
         for (int i = 0; i < NS; ++i) if (s[i] && s[i]->get() == o) note("handle h", i);
         for (int k = 0; k < ND; ++k) if (d[k] && d[k]->get() == o) note("handle d", k);
+        for (int k = 0; k < ND; ++k) if (d2[k] && static_cast<const Obj*>(d2[k]->get()) == o) note("handle e", k);
         int last_id = int(sim::rt_cell_get(CELL_NEXT_ID));
         for (int id = 1; id <= last_id && size_t(id) < alive_ptr.size(); ++id)
             if (alive_ptr[size_t(id)] && alive_ptr[size_t(id)] != o && sim::rt_cell_get(uint32_t(CELL_BASE + id)) == 1 &&
@@ -102,12 +108,14 @@ struct History : public DyingHook {
     ~History() { g_dying = nullptr; }
     std::unique_ptr<Ptr> s[NS];
     std::unique_ptr<DPtr> d[ND];
+    std::unique_ptr<D2Ptr> d2[ND];
     int created = 0;
     Result& res;
     explicit History(Result& r) : res(r) { g_dying = this; }
 
     Ptr& slot(int i) { if (!s[i]) s[i] = std::make_unique<Ptr>(); return *s[i]; }
     DPtr& dslot(int k) { if (!d[k]) d[k] = std::make_unique<DPtr>(); return *d[k]; }
+    D2Ptr& d2slot(int k) { if (!d2[k]) d2[k] = std::make_unique<D2Ptr>(); return *d2[k]; }
 
     void check(const std::string& after) {
         int last_id = int(sim::rt_cell_get(CELL_NEXT_ID));
@@ -130,6 +138,7 @@ struct History : public DyingHook {
         // first pass: find raw pointers only (use_count is read after liveness is established)
         for (int i = 0; i < NS; ++i) if (s[i] && s[i]->get()) see(s[i]->get(), 0, false, "h", i);
         for (int k = 0; k < ND; ++k) if (d[k] && d[k]->get()) see(d[k]->get(), 0, false, "d", k);
+        for (int k = 0; k < ND; ++k) if (d2[k] && d2[k]->get()) see(static_cast<const Obj*>(d2[k]->get()), 0, false, "e", k);
         // handles that live inside objects which are alive (by the ledger) are handles like any other
         for (int id = 1; id <= last_id; ++id)
             if (size_t(id) < alive_ptr.size() && alive_ptr[size_t(id)] && sim::rt_cell_get(uint32_t(CELL_BASE + id)) == 1 &&
@@ -138,6 +147,7 @@ struct History : public DyingHook {
         if (!res.ok) return;
         for (int i = 0; i < NS; ++i) if (s[i] && s[i]->get()) check_count(*s[i], cnt, after);
         for (int k = 0; k < ND; ++k) if (d[k] && d[k]->get()) check_count(*d[k], cnt, after);
+        for (int k = 0; k < ND; ++k) if (d2[k] && d2[k]->get()) check_count(*d2[k], cnt, after);
         for (int id = 1; id <= last_id; ++id)
             if (size_t(id) < alive_ptr.size() && alive_ptr[size_t(id)] && sim::rt_cell_get(uint32_t(CELL_BASE + id)) == 1 &&
                 alive_ptr[size_t(id)]->next.get())
@@ -179,7 +189,8 @@ void run_history(const Workload& w, Result& res) {
     History h(res);
     static const char* names[] = {"new", "new_derived", "copy_ctor", "move_ctor", "copy_assign", "move_assign", "conv_copy_ctor",
                                   "conv_move_ctor", "conv_copy_assign", "conv_move_assign", "reset", "swap", "unify", "drop",
-                                  "assign_null", "dreset", "dcopy", "link", "advance", "advance_move", "unlink", "push_front", "make_counting_selfreg"};
+                                  "assign_null", "dreset", "dcopy", "link", "advance", "advance_move", "unlink", "push_front", "make_counting_selfreg",
+                                  "new_derived2", "conv2_copy_assign", "conv2_move_assign", "conv2_copy_ctor", "drop_derived2"};
     int step = 0;
     for (auto& op : w.ops) {
         if (op.empty()) continue;
@@ -251,6 +262,12 @@ void run_history(const Workload& w, Result& res) {
             }
             break;
         case H_UNLINK: if (h.slot(i).get()) h.slot(i)->next.reset(); break;
+        case H_NEWD2: { Derived2* dd = new Derived2; h.reg(static_cast<Obj*>(dd)); h.d2[k] = nullptr; h.d2[k] = std::make_unique<D2Ptr>(dd); break; }
+        case H_D2_COPYASSIGN: expect = h.d2slot(k).get(); has_expect = true; h.slot(i) = h.d2slot(k); break;
+        case H_D2_MOVEASSIGN: expect = h.d2slot(k).get(); has_expect = true; h.slot(i) = std::move(h.d2slot(k)); break;
+        case H_D2_COPYCTOR: { expect = h.d2slot(k).get(); has_expect = true;
+            auto t = std::make_unique<Ptr>(h.d2slot(k)); h.s[i] = std::move(t); break; }
+        case H_D2_DROP: h.d2[k] = nullptr; break;
         case H_MAKE_SELFREG: {
             // slot j is filled by the object's own constructor, slot i by make_counting's result
             tlx::CountingPtr<SelfReg> p = tlx::make_counting<SelfReg>(&h, j);
@@ -275,6 +292,7 @@ void run_history(const Workload& w, Result& res) {
     // scope exit of everything: every object must be destroyed exactly once
     for (auto& p : h.s) p = nullptr;
     for (auto& p : h.d) p = nullptr;
+    for (auto& p : h.d2) p = nullptr;
     int last_id = int(sim::rt_cell_get(CELL_NEXT_ID));
     for (int id = 1; id <= last_id; ++id)
         if (sim::rt_cell_get(uint32_t(CELL_BASE + id)) != 2)
